@@ -77,9 +77,11 @@ def post(recs, merged):
             if h != int(r["h"]):
                 viol("C08/%s/offline/h-mismatch" % cls, "offline model: h != h_own * prod(accepted) mod p", case,
                      dict(record=r, model_h=str(h), accepted=sorted(acc[pl])))
+                tainted.add(pl)
             if r["n"] != len(acc[pl]):
                 viol("C08/%s/offline/number-of-keys" % cls, "offline model: NumberOfKeys != |accepted|", case,
                      dict(record=r, accepted=sorted(acc[pl])))
+                tainted.add(pl)
     merged["obs"]["offline_model_operations"] = nops
     merged["obs"]["offline_model_worlds"] = nworlds
     merged["counts"]["offline_model_operations"] = nops
